@@ -165,6 +165,14 @@ func (c *c10ctx) permits(fn *ssa.Function) permits {
 					force = append(force, x)
 				}
 			case *ssa.Lookup:
+				// oldSum := localRefs[dst]  (absent key → nil)
+				if !x.CommaOk {
+					if mt, ok := x.X.Type().Underlying().(*types.Map); ok {
+						if sl, ok := mt.Elem().Underlying().(*types.Slice); ok && isByte(sl.Elem()) {
+							old = append(old, x)
+						}
+					}
+				}
 				// v, ok := remoteRefs[dst]
 				if x.CommaOk {
 					if mt, ok := x.X.Type().Underlying().(*types.Map); ok {
@@ -776,7 +784,7 @@ func init() {
 	})
 	register(&Rule{
 		ID: "C10-h", Template: "T5 error-drop (old value of a gated ref)",
-		Doc: "The update gate knows the ref's real previous value: in the functions that gate ref updates (scope of C10-a) the error of the old-value getter (ref.GetRef / GetHead / …) is examined — a store failure must not make an existing ref look new, which would skip the ancestor/force/tag gate.",
+		Doc: "The update gate knows the ref's real previous value: in the functions that gate ref updates (scope of C10-a) the error of the old-value getter (ref.GetRef / GetHead / …) is examined — a store failure must not make an existing ref look new, which would skip the ancestor/force/tag gate; and inside a loop that writes refs the previous value is not looked up in a listing of local refs taken before the loop.",
 		Min: 1,
 		Run: func(p *Program, r *RuleResult) error {
 			c, err := newC10(p)
@@ -787,6 +795,58 @@ func init() {
 			r.Analysed = len(fns)
 			for _, fn := range fns {
 				runErrorDrop(p, r, []*ssa.Function{fn}, func(f *types.Func) bool { return c.oldGetters[f] }, nil)
+			}
+			// the previous value of a LOCAL ref is read where it is used: a gate inside
+			// a loop does not look the ref up in a listing taken before the loop
+			listers, err := p.MustFuncs("pkg/ref.ListAllRefs", "pkg/ref.ListLocalRefs", "pkg/ref.ListHeads", "pkg/ref.ListTags")
+			if err != nil {
+				return err
+			}
+			for _, fn := range fns {
+				n := 0
+				for _, b := range fn.Blocks {
+					for _, in := range b.Instrs {
+						lk, ok := in.(*ssa.Lookup)
+						if !ok {
+							continue
+						}
+						mt, ok := lk.X.Type().Underlying().(*types.Map)
+						if !ok {
+							continue
+						}
+						if sl, ok := mt.Elem().Underlying().(*types.Slice); !ok || !isByte(sl.Elem()) {
+							continue
+						}
+						h := enclosingLoop(b)
+						if h == nil {
+							continue
+						}
+						// does the map come from a listing of local refs made outside this loop?
+						var lister *ssa.Call
+						for v := range backward(lk.X, nil) {
+							if call, ok := v.(*ssa.Call); ok && isCallTo(call, listers) != nil && !loopBody(h)[call.Block()] {
+								lister = call
+							}
+						}
+						if lister == nil {
+							continue
+						}
+						// only lookups in a loop that also writes refs matter
+						writes := false
+						for _, s := range c.sites(fn) {
+							if loopBody(h)[s.in.Block()] {
+								writes = true
+							}
+						}
+						if !writes {
+							continue
+						}
+						key := fmt.Sprintf("%s|snapshot-lookup#%d", funcName(fn), n)
+						n++
+						r.bad(key, p.Rel(lk.Pos()), "the previous value of a local ref is read in the iteration that gates its update",
+							fmt.Sprintf("the previous value is looked up in the listing taken at %s, before the loop that writes refs: a ref moved meanwhile (by this very loop for a repeated destination, or by another process) is gated against a value it no longer has", p.Rel(lister.Pos())))
+					}
+				}
 			}
 			r.Analysed = len(fns)
 			return nil
